@@ -659,3 +659,159 @@ Proof.
     destruct v as [|[|[|[|v]]]]; cbn in H; try discriminate; inversion H; subst; reflexivity.
   - vm_compute. discriminate.
 Qed.
+
+(* ================================================================== MoveMemrefDims: the IR surgery *)
+(* e2 is e1 with the erased name d bound to the value of its replacement w *)
+Definition srel (d w : var) (e1 e2 : env) : Prop := (forall x, x <> d -> e1 x = e2 x) /\ e2 d = e1 w.
+
+Lemma sbv_rel d w e1 e2 u : srel d w e1 e2 -> e1 (sbv d w u) = e2 u.
+Proof.
+  intros [H1 H2]. unfold sbv. destruct (Nat.eqb u d) eqn:E.
+  - apply Nat.eqb_eq in E. subst. symmetry. exact H2.
+  - apply Nat.eqb_neq in E. apply H1. exact E.
+Qed.
+
+Lemma srel_upd d w e1 e2 x v : srel d w e1 e2 -> x <> d -> x <> w -> srel d w (upd e1 x v) (upd e2 x v).
+Proof.
+  intros [H1 H2] Hd Hw. split.
+  - intros y Hy. unfold upd. destruct (Nat.eqb y x); [reflexivity|apply H1; exact Hy].
+  - rewrite !upd_other by congruence. exact H2.
+Qed.
+
+Lemma eval_dim_sb d w e1 e2 x : srel d w e1 e2 -> eval_dim e1 (sb_dim d w x) = eval_dim e2 x.
+Proof. intros H. destruct x as [z|v]; cbn; [reflexivity|]. rewrite (sbv_rel _ _ _ _ _ H). reflexivity. Qed.
+
+Lemma eval_pexpr_sb d w e1 e2 p : srel d w e1 e2 -> eval_pexpr e1 (sb_p d w p) = eval_pexpr e2 p.
+Proof.
+  intros H. destruct p as [z|k a b|rs|s i|sz|s sz]; cbn [eval_pexpr sb_p].
+  - reflexivity.
+  - rewrite !(sbv_rel _ _ _ _ _ H). reflexivity.
+  - f_equal. f_equal. rewrite map_map. apply map_ext. intros l. unfold eval_lin. cbn [fst snd]. f_equal. f_equal.
+    rewrite map_map. apply map_ext. intros cv. cbn [fst snd]. rewrite (sbv_rel _ _ _ _ _ H). reflexivity.
+  - rewrite !(sbv_rel _ _ _ _ _ H). reflexivity.
+  - f_equal. rewrite map_map. apply map_ext. intros x. apply eval_dim_sb. exact H.
+  - f_equal. rewrite map_map. apply map_ext. intros x. apply eval_dim_sb. exact H.
+Qed.
+
+Definition op_subst_ok (d w : var) (o : op) := forall e1 e2,
+  srel d w e1 e2 -> ~ In d (alldefs_op o) -> ~ In w (alldefs_op o) ->
+  snd (exec_op (subst_op d w o) e1) = snd (exec_op o e2) /\
+  srel d w (fst (exec_op (subst_op d w o) e1)) (fst (exec_op o e2)).
+
+Lemma block_subst_of_ops d w b : Forall (op_subst_ok d w) b -> forall e1 e2,
+  srel d w e1 e2 -> ~ In d (alldefs b) -> ~ In w (alldefs b) ->
+  trace (map (subst_op d w) b) e1 = trace b e2 /\
+  srel d w (fst (exec_block (map (subst_op d w) b) e1)) (fst (exec_block b e2)).
+Proof.
+  induction 1 as [|o b Ho _ IH]; intros e1 e2 Hr Hd Hw; [split; [reflexivity|exact Hr]|].
+  unfold alldefs in Hd, Hw. cbn [flat_map] in Hd, Hw. rewrite in_app_iff in Hd, Hw.
+  destruct (Ho e1 e2 Hr) as [Ht Hr']; [tauto|tauto|].
+  destruct (IH _ _ Hr') as [Ht2 Hr2]; [unfold alldefs; tauto|unfold alldefs; tauto|].
+  cbn [map]. rewrite !trace_cons, !env_cons, Ht, Ht2. split; [reflexivity|exact Hr2].
+Qed.
+
+Lemma subst_op_ok d w o : op_subst_ok d w o.
+Proof.
+  induction o as [x p|i a|iv lb ub st body IH] using op_ind'; intros e1 e2 Hr Hd Hw.
+  - cbn [subst_op exec_op fst snd]. split; [reflexivity|].
+    rewrite (eval_pexpr_sb _ _ _ _ _ Hr). apply srel_upd; [exact Hr| |]; intros ->; [apply Hd|apply Hw]; left; reflexivity.
+  - cbn [subst_op exec_op fst snd]. split; [|exact Hr]. f_equal. f_equal. rewrite map_map. apply map_ext.
+    intros u. apply sbv_rel. exact Hr.
+  - cbn [subst_op]. rewrite !exec_For. cbn [fst snd]. split; [|exact Hr].
+    rewrite !(sbv_rel _ _ _ _ _ Hr). apply flat_map_ext. intros k.
+    cbn [alldefs_op] in Hd, Hw.
+    apply (block_subst_of_ops d w body IH).
+    + apply srel_upd; [exact Hr| |]; intros ->; [apply Hd|apply Hw]; left; reflexivity.
+    + intros Hin. apply Hd. right. exact Hin.
+    + intros Hin. apply Hw. right. exact Hin.
+Qed.
+
+Lemma subst_block_ok d w b e1 e2 :
+  srel d w e1 e2 -> ~ In d (alldefs b) -> ~ In w (alldefs b) ->
+  trace (map (subst_op d w) b) e1 = trace b e2 /\
+  srel d w (fst (exec_block (map (subst_op d w) b) e1)) (fst (exec_block b e2)).
+Proof. apply block_subst_of_ops. apply Forall_forall. intros o _. apply subst_op_ok. Qed.
+
+(* the index constant used by a rebuilt memref.dim has the index value of the resolution *)
+Lemma newdim_idx_cst fuel : forall Sin Sout src idx iz s i ix,
+  resolve_dim fuel Sin Sout src iz = Some (RNewDim s i) ->
+  cst_of (Sin ++ Sout) idx = Some iz ->
+  newdim_idx fuel Sin Sout src idx = Some ix ->
+  cst_of (Sin ++ Sout) ix = Some i.
+Proof.
+  induction fuel as [|fuel IH]; intros Sin Sout src idx iz s i ix Hr Hc Hn; [discriminate|].
+  cbn [resolve_dim newdim_idx] in Hr, Hn.
+  destruct (lookup (Sin ++ Sout) src) as [p1|] eqn:Hl.
+  2:{ inversion Hr; subst. inversion Hn; subst. exact Hc. }
+  destruct p1 as [z|k a b|rs|s' i'|sz|s' sizes]; try discriminate.
+  rewrite Hc in Hn.
+  destruct (nth_error sizes (Z.to_nat iz)) as [[z|v]|]; try discriminate.
+  destruct (lookup Sin v) as [pv|] eqn:Ev.
+  - destruct pv as [z|k a b|rs|s2 i2|sz|s2 sz]; try discriminate.
+    destruct (cst_of (Sin ++ Sout) i2) as [iz2|] eqn:Ei; [|discriminate].
+    apply (IH _ _ _ _ _ _ _ _ Hr Ei Hn).
+  - discriminate.
+Qed.
+
+(* the source of a rebuilt memref.dim is the source of the matched dim or of a dim of the loop level *)
+Lemma resolve_newdim_src fuel : forall Sin Sout src iz s i (P : var -> Prop),
+  resolve_dim fuel Sin Sout src iz = Some (RNewDim s i) ->
+  P src -> (forall v s' i', lookup Sin v = Some (PDim s' i') -> P s') ->
+  P s /\ lookup (Sin ++ Sout) s = None.
+Proof.
+  induction fuel as [|fuel IH]; intros Sin Sout src iz s i P Hr Hsrc HP; [discriminate|].
+  cbn [resolve_dim] in Hr.
+  destruct (lookup (Sin ++ Sout) src) as [p1|] eqn:Hl.
+  2:{ inversion Hr; subst. split; assumption. }
+  destruct p1 as [z|k a b|rs|s' i'|sz|s' sizes]; try discriminate.
+  destruct (nth_error sizes (Z.to_nat iz)) as [[z|v]|]; try discriminate.
+  destruct (lookup Sin v) as [pv|] eqn:Ev.
+  - destruct pv as [z|k a b|rs|s2 i2|sz|s2 sz]; try discriminate.
+    + destruct (first_const rs); discriminate.
+    + destruct (cst_of (Sin ++ Sout) i2) as [iz2|]; [|discriminate].
+      apply (IH _ _ _ _ _ _ P Hr); [eapply HP; exact Ev|exact HP].
+  - destruct (lookup Sout v) as [[z|k a b|rs|s2 i2|sz|s2 sz]|]; try discriminate.
+    destruct (first_const rs); discriminate.
+Qed.
+
+(* an existing value chosen as replacement is a constant or a dim: an index value *)
+Lemma resolve_rvar_kind fuel : forall Sin Sout src iz v,
+  resolve_dim fuel Sin Sout src iz = Some (RVar v) ->
+  exists p, lookup (Sin ++ Sout) v = Some p /\
+            ((exists c, p = PConst c) \/ (exists s i, p = PDim s i)).
+Proof.
+  induction fuel as [|fuel IH]; intros Sin Sout src iz v Hr; [discriminate|].
+  cbn [resolve_dim] in Hr.
+  destruct (lookup (Sin ++ Sout) src) as [p1|] eqn:Hl; [|discriminate].
+  destruct p1 as [z|k a b|rs|s' i'|sz|s' sizes]; try discriminate.
+  destruct (nth_error sizes (Z.to_nat iz)) as [[z|u]|]; try discriminate.
+  destruct (lookup Sin u) as [pv|] eqn:Ev.
+  - destruct pv as [z|k a b|rs|s2 i2|sz|s2 sz]; try discriminate.
+    + inversion Hr; subst. exists (PConst z). rewrite lookup_app, Ev. split; [reflexivity|left; eauto].
+    + destruct (first_const rs); discriminate.
+    + destruct (cst_of (Sin ++ Sout) i2) as [iz2|]; [|discriminate]. apply (IH _ _ _ _ _ Hr).
+  - destruct (lookup Sout u) as [pv|] eqn:Ev2; [|discriminate].
+    destruct pv as [z|k a b|rs|s2 i2|sz|s2 sz]; try discriminate.
+    + inversion Hr; subst. exists (PConst z). rewrite lookup_app, Ev. split; [exact Ev2|left; eauto].
+    + destruct (first_const rs); discriminate.
+    + inversion Hr; subst. exists (PDim s2 i2). rewrite lookup_app, Ev. split; [exact Ev2|right; eauto].
+Qed.
+
+Lemma lookup_In Sc v p : lookup Sc v = Some p -> In (v, p) Sc.
+Proof.
+  induction Sc as [|[x q] Sc IH]; cbn; [discriminate|]. destruct (Nat.eqb x v) eqn:E.
+  - intros H. inversion H; subst. apply Nat.eqb_eq in E. subst. left. reflexivity.
+  - intros H. right. apply IH. exact H.
+Qed.
+
+(* membership based (order insensitive) forms of the scope invariants *)
+Definition defs_okI (Sc : scope) (e : env) := forall v p, In (v, p) Sc -> e v = eval_pexpr e p.
+Definition closedI (D : list var) (Sc : scope) :=
+  forall v p, In (v, p) Sc -> In v D /\ forall u, In u (uses_p p) -> In u D.
+
+Lemma defs_okI_defs_ok Sc e : defs_okI Sc e -> defs_ok Sc e.
+Proof. intros H v p Hl. apply H. apply lookup_In. exact Hl. Qed.
+Lemma defs_okI_scope_ok Sc e : defs_okI Sc e -> scope_ok Sc e.
+Proof. intros H. apply defs_ok_scope_ok, defs_okI_defs_ok. exact H. Qed.
+Lemma closedI_dom D Sc v : closedI D Sc -> In v (map fst Sc) -> In v D.
+Proof. intros H Hin. apply in_map_iff in Hin as [[x p] [Hx Hin]]. cbn in Hx. subst. destruct (H _ _ Hin) as [H1 _]. exact H1. Qed.
